@@ -36,7 +36,7 @@ type Cfg struct {
 	Width   int // max children per container
 	MaxNode int // max nodes in total
 	StrLen  int // max length of strings and keys (symbolic bytes)
-	Leaves  int // number of leaf kinds used: 4 = nil,bool,int,string; 7 adds uint,f32,f64
+	Leaves  int // number of leaf kinds used, in the order int,string,bool,nil,uint,f32,f64
 	ASCII   bool // strings/keys restricted to printable ASCII without quote/backslash
 	nodes   int
 	h       *rt.H
@@ -68,7 +68,7 @@ func (c *Cfg) str(what string) []byte {
 func (c *Cfg) value(depth int) *Node {
 	c.nodes++
 	maxKind := c.Leaves - 1
-	leafKinds := []Kind{KNil, KBool, KInt, KStr, KUint, KF32, KF64}
+	leafKinds := []Kind{KInt, KStr, KBool, KNil, KUint, KF32, KF64}
 	nChoices := c.Leaves
 	canNest := depth < c.Depth && c.nodes < c.MaxNode
 	if canNest {
@@ -150,6 +150,7 @@ func (n *Node) Events(out []ev.Event) []ev.Event {
 type CBOROpts struct {
 	Width int  // 0: minimal; 1,2,4,8: every argument that fits uses this many bytes
 	Indef bool // containers of indefinite length
+	IntW  int  // integers: -1 = chosen per integer (fork), 0..4 = immediate,1,2,4,8 bytes for every integer of the document
 }
 
 func cborHead(out []byte, major byte, arg uint64, width int) []byte {
@@ -182,7 +183,10 @@ func EncodeCBOR(h *rt.H, n *Node, o CBOROpts, out []byte) []byte {
 			arg = rt.IteU64(neg, ^n.Bits, n.Bits)
 			major = rt.IteU8(neg, 1, 0)
 		}
-		w := h.Choose("cborw", 0, 4) // 0: immediate, 1..4: 1,2,4,8 byte argument
+		w := o.IntW
+		if w < 0 {
+			w = h.Choose("cborw", 0, 4) // 0: immediate, 1..4: 1,2,4,8 byte argument
+		}
 		switch w {
 		case 0:
 			h.Assume(arg < 24)
@@ -234,4 +238,258 @@ func EncodeCBOR(h *rt.H, n *Node, o CBOROpts, out []byte) []byte {
 		}
 	}
 	return out
+}
+
+// ---------------------------------------------------------------- JSON reference writer (text level)
+
+// JSONOpts: insignificant whitespace style (RFC 8259 allows ws around the six
+// structural characters).
+type JSONOpts struct {
+	WS int // 0 none; 1 space after , and :; 2 space before , : ] }; 3 newline after [ { and before ] }; 4 tab+CR everywhere
+}
+
+func (o JSONOpts) after(c byte) string {
+	switch {
+	case o.WS == 1 && (c == ',' || c == ':'):
+		return " "
+	case o.WS == 3 && (c == '[' || c == '{'):
+		return "\n"
+	case o.WS == 4:
+		return "\t\r"
+	}
+	return ""
+}
+
+func (o JSONOpts) before(c byte) string {
+	switch {
+	case o.WS == 2 && (c == ',' || c == ':' || c == ']' || c == '}'):
+		return " "
+	case o.WS == 3 && (c == ']' || c == '}'):
+		return "\n"
+	case o.WS == 4:
+		return " \n"
+	}
+	return ""
+}
+
+func (o JSONOpts) tok(out []byte, c byte) []byte {
+	out = append(out, o.before(c)...)
+	out = append(out, c)
+	return append(out, o.after(c)...)
+}
+
+// JSONText writes n as JSON text. Scalars are written at token level: an integer is
+// an optional '-' and 1..2 symbolic digits, a string is its (assumed plain ASCII)
+// bytes between quotes, so no arithmetic is needed and every token stays symbolic.
+// Node payloads (Bits) are not used for KInt; use DecodeJSON on the text for values.
+func JSONText(h *rt.H, n *Node, o JSONOpts, out []byte) []byte {
+	switch n.K {
+	case KNil:
+		out = append(out, "null"...)
+	case KBool:
+		if h.Choose("jbool", 0, 1) == 1 {
+			out = append(out, "true"...)
+		} else {
+			out = append(out, "false"...)
+		}
+	case KInt, KUint, KF32, KF64:
+		form := h.Choose("jnum", 0, 3) // 0: d, 1: -d, 2: dd, 3: d.d
+		d := h.Bytes("jd", 2)
+		h.Assume(d[0] >= '0' && d[0] <= '9' && d[1] >= '0' && d[1] <= '9')
+		switch form {
+		case 0:
+			out = append(out, d[0])
+		case 1:
+			out = append(out, '-', d[0])
+		case 2:
+			h.Assume(d[0] != '0')
+			out = append(out, d[0], d[1])
+		case 3:
+			out = append(out, d[0], '.', d[1])
+		}
+	case KStr:
+		out = append(out, '"')
+		for _, c := range n.Str {
+			h.Assume(c >= 0x20 && c < 0x7f && c != '"' && c != '\\')
+		}
+		out = append(out, n.Str...)
+		out = append(out, '"')
+	case KArr:
+		out = o.tok(out, '[')
+		for i, k := range n.Kids {
+			if i > 0 {
+				out = o.tok(out, ',')
+			}
+			out = JSONText(h, k, o, out)
+		}
+		out = o.tok(out, ']')
+	case KObj:
+		out = o.tok(out, '{')
+		for i, k := range n.Kids {
+			if i > 0 {
+				out = o.tok(out, ',')
+			}
+			out = append(out, '"')
+			for _, c := range n.Keys[i] {
+				h.Assume(c >= 0x20 && c < 0x7f && c != '"' && c != '\\')
+			}
+			out = append(out, n.Keys[i]...)
+			out = append(out, '"')
+			out = o.tok(out, ':')
+			out = JSONText(h, k, o, out)
+		}
+		out = o.tok(out, '}')
+	}
+	return out
+}
+
+// ---------------------------------------------------------------- UBJSON reference encoder
+
+// UBJOpts: representation choices draft 12 allows.
+type UBJOpts struct {
+	Container int  // 0 plain ([...]), 1 counted ([#n ...), 2 typed+counted where all elements share a marker
+	LenMarker byte // marker used for lengths and counts: i U I l L
+	Noop      bool // a no-op before every element of a plain container
+	IntMarker byte // marker for every integer of the document; 0 = chosen per integer (fork)
+}
+
+func ubjLen(out []byte, n int, m byte) []byte {
+	switch m {
+	case 'i', 'U':
+		return append(out, m, byte(n))
+	case 'I':
+		return append(out, m, byte(n>>8), byte(n))
+	case 'l':
+		return append(out, m, byte(n>>24), byte(n>>16), byte(n>>8), byte(n))
+	}
+	return append(out, 'L', 0, 0, 0, 0, byte(n>>24), byte(n>>16), byte(n>>8), byte(n))
+}
+
+// ubjMarker picks the marker of a scalar node (integers: a symbolic choice among the
+// markers the value fits into, fixed per node in n.Str[0] slot via Choose).
+func ubjMarker(h *rt.H, n *Node, o UBJOpts) byte {
+	switch n.K {
+	case KNil:
+		return 'Z'
+	case KBool:
+		// concrete per path
+		if h.Choose("ubool", 0, 1) == 1 {
+			return 'T'
+		}
+		return 'F'
+	case KInt, KUint:
+		if o.IntMarker != 0 {
+			return o.IntMarker
+		}
+		return []byte{'i', 'U', 'I', 'l', 'L'}[h.Choose("uint", 0, 4)]
+	case KF32:
+		return 'd'
+	case KF64:
+		return 'D'
+	case KStr:
+		return 'S'
+	case KArr:
+		return '['
+	}
+	return '{'
+}
+
+func be(out []byte, v uint64, n int) []byte {
+	for s := (n - 1) * 8; s >= 0; s -= 8 {
+		out = append(out, byte(v>>uint(s)))
+	}
+	return out
+}
+
+// ubjPayload writes the payload of n for marker m (marker already written or implied)
+// and constrains symbolic payloads to what the marker can carry.
+func ubjPayload(h *rt.H, n *Node, m byte, o UBJOpts, out []byte) []byte {
+	switch m {
+	case 'Z':
+	case 'T':
+		h.Assume(n.Bits == 1)
+	case 'F':
+		h.Assume(n.Bits == 0)
+	case 'i':
+		h.Assume(int64(n.Bits) >= -128 && int64(n.Bits) <= 127)
+		out = append(out, byte(n.Bits))
+	case 'U':
+		h.Assume(n.Bits <= 255)
+		out = append(out, byte(n.Bits))
+	case 'I':
+		h.Assume(int64(n.Bits) >= -32768 && int64(n.Bits) <= 32767)
+		out = be(out, n.Bits, 2)
+	case 'l':
+		h.Assume(int64(n.Bits) >= -1<<31 && int64(n.Bits) < 1<<31)
+		out = be(out, n.Bits, 4)
+	case 'L':
+		out = be(out, n.Bits, 8)
+	case 'd':
+		out = be(out, n.Bits, 4)
+	case 'D':
+		out = be(out, n.Bits, 8)
+	case 'S':
+		out = ubjLen(out, len(n.Str), o.LenMarker)
+		out = append(out, n.Str...)
+	case '[', '{':
+		out = ubjContainer(h, n, o, out)
+	}
+	return out
+}
+
+func ubjContainer(h *rt.H, n *Node, o UBJOpts, out []byte) []byte {
+	obj := n.K == KObj
+	mode := o.Container
+	var markers []byte
+	for _, k := range n.Kids {
+		markers = append(markers, ubjMarker(h, k, o))
+	}
+	typ := byte(0)
+	if mode == 2 {
+		if len(markers) == 0 {
+			typ = 'Z'
+		} else {
+			typ = markers[0]
+			for _, m := range markers {
+				if m != typ {
+					mode = 1 // not homogeneous: counted only
+				}
+			}
+		}
+	}
+	if mode == 2 {
+		out = append(out, '$', typ)
+	}
+	if mode >= 1 {
+		out = append(out, '#')
+		out = ubjLen(out, len(n.Kids), o.LenMarker)
+	}
+	for i, k := range n.Kids {
+		if mode == 0 && o.Noop && !obj {
+			out = append(out, 'N')
+		}
+		if obj {
+			out = ubjLen(out, len(n.Keys[i]), o.LenMarker)
+			out = append(out, n.Keys[i]...)
+		}
+		if mode != 2 {
+			out = append(out, markers[i])
+		}
+		out = ubjPayload(h, k, markers[i], o, out)
+	}
+	if mode == 0 {
+		if obj {
+			out = append(out, '}')
+		} else {
+			out = append(out, ']')
+		}
+	}
+	return out
+}
+
+// EncodeUBJSON encodes n with the representation choices o.
+func EncodeUBJSON(h *rt.H, n *Node, o UBJOpts, out []byte) []byte {
+	m := ubjMarker(h, n, o)
+	out = append(out, m)
+	return ubjPayload(h, n, m, o, out)
 }
